@@ -15,7 +15,7 @@ RULE = ("Every byte string of length <= 2 (all 65 793) through all 26 accessors 
         "Size::head for all 256 bytes and Size::tail on all heads (SZ); drop accounting of partially decoded arrays/collections (DROPS). "
         "Real crate vs extracted model (outcome class, value, position). O= (implementation only): no panic (unwind boundary; a process "
         "abort or hang is attributed to its case), position <= max(position before, input length), bytes requested from a counting "
-        "global allocator <= 16 KiB + 512 * input length, every created element dropped exactly once. Non-trivial: input longer than 1 byte.")
+        "global allocator <= 1 MiB + 512 * input length, every created element dropped exactly once. Non-trivial: input longer than 1 byte.")
 ASSUMPTIONS = ["out-of-bounds reads and the unsafe blocks (ArrayVec, ByteSlice casts) are runtime facts outside the model; Miri is not part of the registered commands",
                "wall-clock bound: a case that does not finish kills its process after the shard timeout and is reported as 'hang'"]
 
